@@ -2,7 +2,7 @@
 """Regenerates MANIFEST.json from the table below (keeps it schema-valid)."""
 import json, subprocess, sys
 
-HOOK_COMMITS = ["70f3eef", "97dc9b7", "fc3c5a7", "9b94f93"]
+HOOK_COMMITS = ["70f3eef", "97dc9b7", "fc3c5a7", "9b94f93", "4cbb02e"]
 
 NA = [
     ("C11", "MessageWrapper::encode / MessageView round trip is a pure function of one argument: no schedule, clock, I/O, fault or second party for a simulator to control (DESIGN.md section 1)"),
